@@ -57,6 +57,12 @@ def run(chk):
             Bm = np.array(m1.basis_matrix_)
             a2 = [int(i) for i in fit_once(X, bcfg, ocfg, s2, nsens)[0].all_sensors]
             a1b = [int(i) for i in fit_once(X, bcfg, ocfg, s1, nsens)[0].all_sensors]
+            # the SAME object fitted again at once with the SAME seed (plainly, then on its prefit basis): "equal seeds give equal
+            # rankings" also from one call to the next on one object (a generator kept between fits would continue its stream)
+            impl.quiet(m1.fit, X, seed=s1, quiet=True, **kws)
+            a1_twice = [int(i) for i in m1.all_sensors]
+            impl.quiet(m1.fit, X, seed=s1, quiet=True, prefit_basis=True, **kws)
+            a1_thrice = [int(i) for i in m1.all_sensors]
             # the SAME object fitted again (seed 2, then seed 1 again): fitting twice must give the identical ranking
             impl.quiet(m1.fit, X, seed=s2, quiet=True, **kws)
             a2_same = [int(i) for i in m1.all_sensors]
@@ -97,6 +103,9 @@ def run(chk):
         chk.count("n_sensors:" + ("default" if nsens is None else ("below_modes" if nsens < mm else "at_or_above_modes")))
         chk.count("tail_differs" if a1 != a2 else "tail_same")
         obs = {"r": r, "a1": a1, "a2": a2, "a1_again": a1b}
+        if a1_twice != a1 or a1_thrice != a1:
+            chk.violation("impl", "same-seed-twice-on-one-object-different-ranking", f"fit(seed={s1}) gave {a1}; the same object fitted again with the same seed "
+                          f"gave {a1_twice}, and once more on its prefit basis {a1_thrice}", {**case, "observed": obs})
         if a1[:mm] != a2[:mm]:
             chk.violation("impl", "seed-changes-leading", f"leading {mm} sensors differ between seeds: {a1[:mm]} vs {a2[:mm]}", {**case, "observed": obs})
         if sorted(a1[mm:]) != sorted(a2[mm:]):
